@@ -146,6 +146,76 @@ def ct_check(ctx, case, info, mo):
         ctx.disagree("crit_tensor", case, {"shape": impl[1], "values": got[:8]}, {"shape": shape, "values": data[:8]}, note="value")
 
 
+
+def dim_slices(vals, shape, d):
+    """pure Python: the samples of a row-major tensor (flat list `vals`) along dimension `d` (negative = counted from the end), in
+    row-major order of the remaining multi-index -> (remaining shape, list of samples)"""
+    import itertools
+    r = len(shape)
+    d = d % r
+    strides = [1] * r
+    for i in range(r - 2, -1, -1):
+        strides[i] = strides[i + 1] * shape[i + 1]
+    rest = [i for i in range(r) if i != d]
+    out = []
+    for idx in itertools.product(*[range(shape[i]) for i in rest]):
+        off = sum(j * strides[i] for i, j in zip(rest, idx))
+        out.append([vals[off + t * strides[d]] for t in range(shape[d])])
+    return [shape[i] for i in rest], out
+
+
+def defn_ok(which, par, col, gv, single, prec=None, oce=None):
+    """is `gv` the value the definition of criterion `which` prescribes for the sample `col` (Fractions)?  -> (ok, detail, known-key or None).
+    `single`: the implementation computed in single precision (integer P&L promoted by torch to float32: unit roundoff 6e-8, at most
+    a few dozen terms, so 1e-5 relative); otherwise the tolerances of the double-precision predicates above"""
+    N = len(col)
+    if not math.isfinite(gv) and which != "eloss":
+        return False, {"impl": gv}, None
+    if which == "es":
+        pn = F(par) * N
+        border = abs(pn - round(pn)) <= F(1, 10 ** 9) and pn != round(pn)
+        ks = {math.ceil(par * N)} if not border else {math.floor(pn), math.ceil(pn), int(round(pn))} - {0}
+        exps = [es_exact(kk, col) for kk in ks]
+        ok = any((close(gv, float(e_), 1e-5, 1e-6) if single else feq(F(gv), e_)) for e_ in exps)
+        return ok, {"impl": gv, "definition": float(exps[0])}, None
+    if which == "var":
+        kind_, exp = var_expected(par, col)
+        tolv = (1e-5 if single else 1e-12) * max(1.0, max(abs(float(z)) for z in col))
+        ok = (kind_ in ("min", "max", "kth") and abs(gv - float(exp)) <= tolv) or \
+             (kind_ == "between" and float(exp[0]) - tolv <= gv <= float(exp[1]) + tolv) or \
+             (kind_ == "any" and any(abs(gv - float(e_)) <= tolv for e_ in exp))
+        return ok, {"impl": gv, "expected": str(exp), "level-class": kind_}, None
+    if which == "erm":
+        exp = mp_erm(par, col)
+        ok = close(gv, exp, 1e-5, 1e-5 / min(1.0, par)) if single else close(gv, exp, 1e-9, 1e-9 * max(1.0, abs(exp)) * 1e-3)
+        return ok, {"impl": gv, "definition": exp}, None
+    if which == "eloss":
+        exp = sum(sexp(-par * float(z)) for z in col) / N
+        return close(gv, exp, 1e-5 if single else 1e-10), {"impl": gv, "definition": exp}, None
+    if which == "iso":
+        exp = -sum((math.log(float(z)) if par == 1.0 else float(z) ** (1 - par)) for z in col) / N
+        return close(gv, exp, 1e-5 if single else 1e-10, 1e-6 if single else 1e-12), {"impl": gv, "definition": exp}, None
+    if which == "qcvar":
+        exact, wstar = qcvar_exact(par, col)
+        tol = par * (10 * prec) ** 2 + (1e-5 if single else 1e-9) * max(1.0, abs(float(exact)))
+        ok = abs(gv - float(exact)) <= tol
+        known = None
+        if not ok and float(max(col)) - float(sum(col) / N) < 1 / (2 * par):
+            known = "quadratic_cvar:bracket-misses-root"
+        return ok, {"impl": gv, "minimum": float(exact), "w*": float(wstar)}, known
+    w0, uf = oce
+    exp = w0 - sum(uf(z + w0) for z in col) / N
+    return (close(gv, float(exp), 1e-5, 1e-6) if single else feq(F(gv), exp)), {"impl": gv, "definition": float(exp)}, None
+
+
+def qprec(cols):
+    """precision of the bisection shared by all samples of one quadratic_cvar call (as in the predicates above: from the widest sample)"""
+    wide = max(float(max(col) - min(col)) for col in cols) + 1e-8
+    return 1e-6 * 10 ** int(math.log10(2 * wide))
+
+
+DIM_SHAPES = [(2, 3, 4), (3, 2, 5), (3, 3, 4), (4, 2, 2), (2, 1, 3), (2, 3, 2, 4), (3, 2, 2, 2)]
+
 REUSE_NAME = {"es": "expected_shortfall", "var": "value_at_risk", "erm": "entropic_risk_measure", "eloss": "entropic_loss",
               "iso": "isoelastic", "qcvar": "quadratic_cvar", "oce": "oce"}
 
@@ -720,6 +790,236 @@ def check(ctx):
                 ctx.fail(f"{name}: evaluation number {step + 1} on the same input / target tensors does not return the value its definition "
                          "prescribes for input - target", case, key=key, detail=detail)
                 break
+    # ---------------- criterion factory of the two corpora below: parameters, module, functional form (on input - target), OCE data,
+    # the parameter as op crit_tensor takes it
+    def build(which, n, mild=False):
+        oce = None
+        if which in ("es", "var", "topp"):
+            par = float(g.choice([F(1, 10), F(1, 4), F(1, 2), F(3, 10), F(1), F(1, n), F(g.randint(1, n), n), F(33, 100), F(999, 1000)]))
+            fn_ = {"es": fnl.expected_shortfall, "var": fnl.value_at_risk, "topp": fnl.topp}[which]
+            mod = nn.ExpectedShortfall(par) if which == "es" else None
+        elif which in ("erm", "eloss"):
+            par = g.choice([0.25, 1.0, 2.0] if mild else [0.25, 1.0, 2.0, 1 / 64, 8.0])
+            fn_ = fnl.entropic_risk_measure if which == "erm" else (lambda v_, a_: -fnl.exp_utility(v_, a_).mean(0))
+            mod = nn.EntropicRiskMeasure(par) if which == "erm" else nn.EntropicLoss(par)
+        elif which == "iso":
+            par = g.choice([1.0, 0.5, 0.25, 0.75])
+            fn_ = lambda v_, a_: -fnl.isoelastic_utility(v_, a_).mean(0)
+            mod = nn.IsoelasticLoss(par)
+        elif which == "qcvar":
+            par = g.choice([1.0, 2.0, 10.0] if mild else [1.0, 2.0, 10.0, 64.0])
+            fn_ = fnl.quadratic_cvar
+            mod = nn.QuadraticCVaR(par)
+        else:
+            uk = g.choice(["quad", "affine"])
+            ua, ub = g.choice([F(-1, 2), F(-1), F(-1, 4)]), g.choice([F(1), F(1, 2), F(2)])
+            w0 = g.dy(-1, 1, 2)
+            if uk == "quad":
+                u = lambda t_, a=float(ua), b=float(ub): a * t_ * t_ + b * t_
+                uf = lambda z, ua=ua, ub=ub: ua * z * z + ub * z
+            else:
+                u = lambda t_, a=float(ub), b=float(ua): a * t_ + b
+                uf = lambda z, ua=ua, ub=ub: ub * z + ua
+            mod = OCE(u)
+            with torch.no_grad():
+                mod.w.copy_(torch.tensor(float(w0)))
+            mod = mod.to(torch.float64)
+            par = [uk, rat_str(ua if uk == "quad" else ub), rat_str(ub if uk == "quad" else ua), rat_str(w0)]
+            fn_, oce = None, (w0, uf)
+        return par, mod, fn_, oce
+    # ---------------- the path dimension anywhere: every functional form that takes `dim` (expected_shortfall, value_at_risk,
+    # quadratic_cvar, topp) with EVERY legal dim (-rank .. rank-1) on 3-D / 4-D inputs whose sizes all differ (and one with equal
+    # sizes, one with a size-one dimension); every module form (and the dim-less entropic functional) on the same tensors, i.e. true
+    # trailing shapes (N, M, K), (N, M, K, L), with none / number / per-path / full targets.  The result must have the input shape
+    # with exactly the reduced dimension removed, and the entry at each remaining multi-index must be the value the definition
+    # prescribes for the sample at that multi-index (samples cut out of the row-major data in pure Python).  A fixed corpus of
+    # (shape, dim, criterion) on every tier (values through g), plus random shapes
+    plan = []
+    for shape in DIM_SHAPES:
+        for d in range(-len(shape), len(shape)):
+            plan += [(shape, d, w_, "functional") for w_ in ("es", "var", "qcvar", "topp")]
+        plan += [(shape, 0, w_, "module") for w_ in ("es", "erm", "eloss", "iso", "qcvar", "oce")] + [(shape, 0, "erm", "functional")]
+    for it in range(40 if ctx.tier == "quick" else 900):
+        shape = tuple(g.randint(1, 4) for _ in range(g.choice([3, 3, 4])))
+        if g.chance(0.7):
+            plan.append((shape, g.randint(-len(shape), len(shape) - 1), g.choice(["es", "var", "qcvar", "topp"]), "functional"))
+        else:
+            w_ = g.choice(["es", "erm", "eloss", "iso", "qcvar", "oce", "erm"])
+            plan.append((shape, 0, w_, "functional" if (w_ == "erm" and g.chance(0.5)) else "module"))
+    for shape, d, which, form in plan:
+        shape = list(shape)
+        r = len(shape)
+        dn = d % r
+        n = shape[dn]
+        cnt = math.prod(shape)
+        kind = g.choice(["ties", "generic"])
+        if kind == "ties":
+            pool = [g.dy(-4, 4, 2) for _ in range(max(2, cnt // 3))]
+            vals = [g.choice(pool) for _ in range(cnt)]
+        else:
+            vals = [g.dy(-4, 4, 3) for _ in range(cnt)]
+        if which == "iso":
+            vals = [abs(z) + F(17, 8) for z in vals]
+        x = torch.tensor([float(z) for z in vals], dtype=torch.float64).reshape(shape)
+        tk = "none" if form == "functional" else g.choice(["none", "float", "path", "full"])
+        if tk == "none":
+            tv, target = [F(0)] * cnt, None
+        elif tk == "float":
+            c = g.choice([F(1, 2), F(-3, 4), F(1, 4)])
+            tv, target = [c] * cnt, float(c)
+        elif tk == "path":
+            tp = [g.dy(-1, 1, 2) for _ in range(shape[0])]
+            tv = [tp[i // (cnt // shape[0])] for i in range(cnt)]
+            target = torch.tensor([float(z) for z in tp], dtype=torch.float64).reshape([shape[0]] + [1] * (r - 1))
+        else:
+            tv = [g.dy(-1, 1, 2) for _ in range(cnt)]
+            target = torch.tensor([float(z) for z in tv], dtype=torch.float64).reshape(shape)
+        rest, cols = dim_slices([a_ - b_ for a_, b_ in zip(vals, tv)], shape, d)
+        par, mod, fn_, oce = build(which, n)
+        name = "topp" if which == "topp" else REUSE_NAME[which]
+        withdim = form == "functional" and which in ("es", "var", "qcvar", "topp")
+        cls = "explicit-dim" if withdim else "trailing-shape"
+        case = {"which": which, "form": form, "shape": shape, "dim": d if withdim else None, "par": par, "kind": kind, "target": tk,
+                "data": enc_rat(vals), "targets": enc_rat(tv) if tk != "none" else None}
+        ctx.case(case, True, tag=f"{cls}:{which}")
+        ctx.stats[f"{cls}:rank={r}"] += 1
+        ctx.traces += 1
+        if which == "topp":
+            k = math.ceil(par * n)
+            st, v, mut = call_impl(fnl.topp, x, par, dim=d, largest=False)
+            if mut:
+                ctx.mutated(which, mut, case)
+            if st != "ok":
+                ctx.fail("topp raised on a valid sample with a legal dim", case, key="topp:explicit-dim:error", detail=v)
+                continue
+            eshape = shape[:dn] + [k] + shape[dn + 1:]
+            if list(v.values.shape) != eshape or list(v.indices.shape) != eshape:
+                ctx.fail("topp(dim=d): values / indices do not have the input shape with dimension d shortened to ceil(p n)", case,
+                         key="topp:explicit-dim:shape", detail={"shape": list(v.values.shape), "expected": eshape})
+                continue
+            _, vcols = dim_slices(v.values.reshape(-1).tolist(), eshape, d)
+            _, icols = dim_slices(v.indices.reshape(-1).tolist(), eshape, d)
+            for j, (col, vc, ic) in enumerate(zip(cols, vcols, icols)):
+                if sorted(F(z) for z in vc) != sorted(col)[:k] or any(not (0 <= i_ < n) or col[i_] != F(z) for i_, z in zip(ic, vc)):
+                    ctx.fail("topp(dim=d): the values at a remaining multi-index are not the ceil(p n) smallest outcomes of the sample at that "
+                             "multi-index with indices pointing at them", case, key="topp:explicit-dim:value",
+                             detail={"sample number": j, "sample": [float(z) for z in col], "values": vc, "indices": ic})
+                    break
+            continue
+        if form == "module":
+            st, v, mut = call_impl(mod, x, target) if target is not None else call_impl(mod, x)
+        elif withdim:
+            st, v, mut = call_impl(fn_, x, par, dim=d)
+        else:
+            st, v, mut = call_impl(fn_, x, par)
+        if mut:
+            ctx.mutated(which, mut, case)
+        ct_add(torch, reqs, metas, case, which, par, x, target, form, d if withdim else None, st, v.detach() if st == "ok" else v)
+        if st != "ok":
+            ctx.fail(f"{name} raised on a valid sample (3-D / 4-D input, legal dim)", case, key=f"{name}:{cls}:error", detail=v)
+            continue
+        v = v.detach()
+        if list(v.shape) != rest:
+            ctx.fail(f"{name}: the result does not have the input shape with exactly the reduced dimension removed", case,
+                     key=f"{name}:{cls}:shape", detail={"shape": list(v.shape), "expected": rest})
+            continue
+        prec = qprec(cols) if which == "qcvar" else None
+        for j, (col, gv) in enumerate(zip(cols, flat(v))):
+            okv, detail, known = defn_ok(which, par, col, gv, False, prec=prec, oce=oce)
+            if not okv:
+                ctx.fail(f"{name}: the entry at a remaining multi-index is not the value the definition prescribes for the sample at that "
+                         "multi-index (samples along the reduced dimension)", case, key=known or f"{name}:{cls}:value",
+                         detail=detail | {"sample number": j, "sample": [float(z) for z in col]})
+                break
+    # ---------------- P&L in whole units and whole-number targets: integer (int64 / int32) and bool P&L tensors, float64 P&L with
+    # integer targets; targets none / Python int / Python float / 0-dim and full integer tensors / 0-dim and full float64 tensors /
+    # float32 per-path tensors; EVERY module (forward and closed-form cash) and functional form.  torch promotes input - target to a
+    # floating type, so the value must still be the definition on the mathematical difference input - target (fractional parts of the
+    # target included), at single-precision tolerance where the implementation returns single precision.  Where the unchanged code
+    # refuses such an input (mean / quantile of an integer tensor, arithmetic on bool) the error is only counted.  Fixed corpus on
+    # every tier (values through g)
+    DT_FORMS = [("es", "module"), ("es", "functional"), ("es", "cash"), ("var", "functional"), ("erm", "module"), ("erm", "functional"),
+                ("erm", "cash"), ("eloss", "module"), ("eloss", "functional"), ("eloss", "cash"), ("iso", "module"), ("iso", "functional"),
+                ("qcvar", "module"), ("qcvar", "functional"), ("qcvar", "cash"), ("oce", "module")]
+    DT_TARGETS = ["none", "pyint", "pyfloat", "int0d", "intfull", "float0d", "floatfull", "f32path"]
+    for rep in range(1 if ctx.tier == "quick" else 6):
+        for xdt in ("int64", "int32", "bool", "float64"):
+            for tk in (DT_TARGETS if xdt != "float64" else ["pyint", "int0d", "intfull"]):
+                for which, form in DT_FORMS:
+                    N, M = g.choice([2, 3, 4, 5, 8]), g.choice([1, 1, 2, 3])
+                    shape = [N] if M == 1 else [N, M]
+                    cnt = N * M
+                    low = which == "iso" and xdt == "bool"
+                    if xdt == "bool":
+                        vals = [F(int(g.chance(0.5))) for _ in range(cnt)]
+                    elif xdt == "float64":
+                        vals = [g.dy(-4, 4, 3) for _ in range(cnt)]
+                        vals = [abs(z) + F(17, 8) for z in vals] if which == "iso" else vals
+                    else:
+                        vals = [F(g.randint(2, 9) if which == "iso" else g.randint(-6, 6)) for _ in range(cnt)]
+                    tdt = {"float64": torch.float64, "int64": torch.int64, "int32": torch.int32, "bool": torch.bool}[xdt]
+                    x = torch.tensor([bool(z) if xdt == "bool" else (float(z) if xdt == "float64" else int(z)) for z in vals], dtype=tdt).reshape(shape)
+                    ints = [F(-2), F(-1)] if low else [F(1), F(-2), F(-1)]
+                    fracs = [F(-5, 4), F(-1, 4), F(-3, 2)] if low else [F(1, 2), F(-5, 4), F(3, 4), F(-1, 4)]
+                    if tk == "none":
+                        tv, target = [F(0)] * cnt, None
+                    elif tk in ("pyint", "int0d"):
+                        c = g.choice(ints)
+                        tv, target = [c] * cnt, (int(c) if tk == "pyint" else torch.tensor(int(c)))
+                    elif tk in ("pyfloat", "float0d"):
+                        c = g.choice(fracs)
+                        tv, target = [c] * cnt, (float(c) if tk == "pyfloat" else torch.tensor(float(c), dtype=torch.float64))
+                    elif tk == "intfull":
+                        tv = [g.choice(ints) for _ in range(cnt)]
+                        target = torch.tensor([int(z) for z in tv], dtype=g.choice([torch.int64, torch.int32])).reshape(shape)
+                    elif tk == "floatfull":
+                        tv = [g.choice(fracs) for _ in range(cnt)]
+                        target = torch.tensor([float(z) for z in tv], dtype=torch.float64).reshape(shape)
+                    else:
+                        tp = [g.choice(fracs) for _ in range(N)]
+                        tv = [tp[i // M] for i in range(cnt)]
+                        target = torch.tensor([float(z) for z in tp], dtype=torch.float32).reshape([N] + [1] * (len(shape) - 1))
+                    _, cols = dim_slices([a_ - b_ for a_, b_ in zip(vals, tv)], shape, 0)
+                    if which == "iso" and any(z <= 0 for col in cols for z in col):      # not an admissible wealth (bool P&L without a negative target)
+                        continue
+                    par, mod, fn_, oce = build(which, N, mild=True)
+                    name = REUSE_NAME[which] + (":cash" if form == "cash" else "")
+                    case = {"which": which, "form": form, "shape": shape, "input dtype": xdt, "target": tk,
+                            "target dtype": str(target.dtype) if torch.is_tensor(target) else type(target).__name__, "par": par,
+                            "data": enc_rat(vals), "targets": enc_rat(tv) if tk != "none" else None}
+                    ctx.case(case, True, tag=f"dtype:{xdt}:{which}")
+                    ctx.traces += 1
+                    if form == "module":
+                        st, v, mut = call_impl(mod, x, target) if target is not None else call_impl(mod, x)
+                    elif form == "cash":
+                        st, v, mut = call_impl(mod.cash, x, target) if target is not None else call_impl(mod.cash, x)
+                    else:
+                        kw = {"dim": 0} if which in ("es", "var", "qcvar") else {}
+                        st, v, mut = call_impl(lambda: fn_(x if target is None else x - target, par, **kw), watch=[("input", x), ("target", target)])
+                    if mut:
+                        ctx.mutated(which, mut, case)
+                    ct_add(torch, reqs, metas, case, which, par, x, target, form, (0 if which in ("es", "var", "qcvar") else None) if form == "functional" else None,
+                           st, v.detach() if st == "ok" else v)
+                    ctx.stats[f"dtype:{xdt}:{'evaluated' if st == 'ok' else 'refused'}"] += 1
+                    if st != "ok":
+                        continue
+                    v = v.detach()
+                    if list(v.shape) != shape[1:]:
+                        ctx.fail(f"{name}: the value for an integer / bool P&L or integer target does not have the trailing shape of the sample", case,
+                                 key=f"{name}:integer-dtype:shape", detail={"shape": list(v.shape), "expected": shape[1:]})
+                        continue
+                    # single precision: the returned dtype, or the dtype torch gives the difference input - target (OCE adds its float64 w afterwards)
+                    single = v.dtype != torch.float64 or torch.result_type(x, 0.0 if target is None else target) != torch.float64
+                    cwhich = which if form != "cash" else ("erm" if which == "eloss" else which)
+                    prec = qprec(cols) if which == "qcvar" else None
+                    for j, (col, gv) in enumerate(zip(cols, flat(v))):
+                        okv, detail, known = defn_ok(cwhich, par, col, -gv if form == "cash" else gv, single, prec=prec, oce=oce)
+                        if not okv:
+                            ctx.fail(f"{name}: with an integer / bool P&L tensor or an integer target the value is not the one the definition prescribes "
+                                     "for the difference input - target" + (" (cash = minus the risk)" if form == "cash" else ""), case,
+                                     key=known or f"{name}:integer-dtype:value",
+                                     detail=detail | {"sample number": j, "sample": [float(z) for z in col], "result dtype": str(v.dtype)})
+                            break
     try:
         outs = ctx.driver(reqs)
     except DriverBroken as e:
@@ -768,4 +1068,8 @@ def check(ctx):
              "sessions of three evaluations on the same input / target objects (float, int, 0-dim, full, per-column and per-path targets, module "
              "also deep-copied, functional dim=0 / default, leaf tensors that require grad); every call with its whole input tensor, target object, "
              "form and dim also through the tensor level of the model (op crit_tensor: shape exactly, values at the one-column tolerances; closed-form cash included); "
+             "a fixed corpus of 3-D / 4-D inputs (all sizes different, equal sizes, a size-one dimension) with every legal dim -rank..rank-1 for expected_shortfall / "
+             "value_at_risk / quadratic_cvar / topp and every module form on true (N,M,K), (N,M,K,L) shapes: shape with exactly the reduced dimension removed and "
+             "each entry = the definition on the pure-Python slice at its multi-index (also through op crit_tensor); a fixed corpus of int64 / int32 / bool P&L tensors "
+             "and integer / float / float32 targets (number, 0-dim, full, per-path) for every module, cash and functional form (refusals of the unchanged code only counted); "
              "every case non-trivial; distinct = sha1 of canonical case")
